@@ -450,6 +450,44 @@ fn navigation(thorough: bool, seed: u64, rep: &mut Report) {
             match (r, want) { (Ok(()), None) => {}, (Err(o), Some(w)) if o == w => {}, (got, want) => rep.violation("TryFromJson reports the kind mismatch at the offending fragment", "tryfrom-option", format!("{} as {}", doc, name), format!("got {:?} expected {:?}", got, want)) }
         }
     }
+    // the kinds a mismatch report names: `found` is the kind of the offending value, `expected` does
+    // not contain it and contains every kind the target does accept
+    rep.checks.push("C11: TryFromJson leaf / container conversions: the mismatch names the kind found and the kinds accepted".into());
+    {
+        use json_syntax::{Kind, KindSet, Unexpected};
+        const SAMPLES: [&str; 6] = ["null", "true", "1", "\"s\"", "[]", "{}"];
+        fn kinds_check<T>(rep: &mut Report, name: &str, get: impl Fn(T::Error) -> (usize, Option<Unexpected>)) where T: TryFromJson {
+            let mut accepted: Vec<Kind> = Vec::new();
+            let mut reports: Vec<(String, Kind, usize, Unexpected)> = Vec::new();
+            for s in SAMPLES { for wrap in 0..2 {
+                let doc = if wrap == 0 { s.to_string() } else { format!("[[], {}]", s) };
+                let (v, cm) = Value::parse_str(&doc).unwrap();
+                rep.eval(true, fnv(doc.as_bytes()) ^ fnv(name.as_bytes()));
+                let (target, off) = if wrap == 0 { (&v, 0usize) } else { (&v.as_array().unwrap()[1], 2usize) };
+                match T::try_from_json_at(target, &cm, off) {
+                    Ok(_) => if !accepted.contains(&target.kind()) { accepted.push(target.kind()) },
+                    Err(e) => { let (o, u) = get(e); if let Some(u) = u { reports.push((doc.clone(), target.kind(), off, u)); if o != off { rep.violation("TryFromJson reports the kind mismatch at the offending fragment", "tryfrom-kinds", format!("{} as {}", doc, name), format!("reported index {} expected {}", o, off)); } } }
+                }
+            } }
+            for (doc, kind, _off, u) in reports {
+                let exp: KindSet = u.expected;
+                let has = |k: Kind| exp.iter().any(|x| x == k);
+                if u.found != kind || has(kind) || accepted.iter().any(|k| !has(*k)) {
+                    rep.violation("TryFromJson names the kind found and the kinds accepted", "tryfrom-kinds", format!("{} as {}", doc, name), format!("found={:?} expected={:?}; the value is {:?}, the target accepts {:?}", u.found, exp, kind, accepted));
+                }
+            }
+        }
+        fn plain(e: json_syntax::code_map::Mapped<Unexpected>) -> (usize, Option<Unexpected>) { (e.offset, Some(e.value)) }
+        fn num<T>(e: json_syntax::code_map::Mapped<json_syntax::TryIntoNumberError<T>>) -> (usize, Option<Unexpected>) { (e.offset, match e.value { json_syntax::TryIntoNumberError::Unexpected(u) => Some(u), _ => None }) }
+        kinds_check::<()>(rep, "()", plain);
+        kinds_check::<bool>(rep, "bool", plain);
+        kinds_check::<String>(rep, "String", plain);
+        kinds_check::<Box<String>>(rep, "Box<String>", plain);
+        kinds_check::<Vec<bool>>(rep, "Vec<bool>", plain);
+        kinds_check::<u8>(rep, "u8", num); kinds_check::<u16>(rep, "u16", num); kinds_check::<u32>(rep, "u32", num); kinds_check::<u64>(rep, "u64", num);
+        kinds_check::<i8>(rep, "i8", num); kinds_check::<i16>(rep, "i16", num); kinds_check::<i32>(rep, "i32", num); kinds_check::<i64>(rep, "i64", num);
+        kinds_check::<usize>(rep, "usize", num); kinds_check::<isize>(rep, "isize", num); kinds_check::<f32>(rep, "f32", num); kinds_check::<f64>(rep, "f64", num);
+    }
     rep.sample(docs[0].clone());
 }
 
